@@ -37,7 +37,7 @@ ASSUMPTIONS = [
     'during the hostile phase the harness is the peer: what the victim writes is read and ignored (two real Protocols would otherwise bounce an event named send for ever)',
     'a failing case is attributed to known findings only through neutralised twins; when several known triggers are present the smallest set of triggers whose neutralisation makes the case pass is used',
 ]
-REQUIRED = ['calls_executed_remotely', 'results_received', 'cut_inside_packet', 'cut_inside_delimiter', 'byte_at_a_time_cases',
+REQUIRED = ['locally_fired_event_bound_to_the_peer', 'calls_executed_remotely', 'results_received', 'cut_inside_packet', 'cut_inside_delimiter', 'byte_at_a_time_cases',
             'packet_over_4k', 'inflight_ge2', 'server_to_client_calls', 'client_to_server_calls', 'send_firewall_rejections',
             'recv_firewall_rejections', 'firewall_consulted', 'receiver_raised', 'receiver_generator', 'hostile_packets',
             'hostile_meta_keys_tried', 'hostile_unhashable_channels', 'hostile_truncated', 'hostile_wrong_type', 'hostile_deep_nesting',
@@ -209,6 +209,32 @@ def classes():
             w = self.vt.world
             x = yield self.call(Event.create('vq7_remote', idx), 'snd')
             w.resumed(idx, x, w.sent_events.get(idx))
+
+        @handler('vq7_bound')
+        def _vq7_bound(self, idx):
+            """Style 'bound' (what Node.add(..., auto_remote_event=...) sets up): the event is fired locally, and a handler of that event
+            hands the very same object to send().  The promise fire() returned is what the sender holds on to."""
+            w = self.vt.world
+            ev, proto = w.make_event(idx)
+            w.bound[id(ev)] = [idx, proto, ev, False]
+            w.promises[idx] = self.fire(ev, *ev.channels)
+
+        @handler(channel='*', priority=-1)
+        def _vq7_bind(self, event, *args, **kwargs):
+            ent = self.vt.world.bound.get(id(event))
+            if ent is None or ent[2] is not event or ent[3]:
+                return None
+            ent[3] = True
+            return self._vq7_bind_wait(ent[0], ent[1], event)
+
+        def _vq7_bind_wait(self, idx, proto, ev):
+            w = self.vt.world
+            for v in proto.send(ev):
+                if v is None:
+                    yield None
+                else:
+                    w.marks.add('locally_fired_event_bound_to_the_peer')
+                    w.resumed(idx, w.promises[idx], ev)
 
         @handler('vq7_nores')
         def _vq7_nores(self, idx):
@@ -472,6 +498,8 @@ class World:
         self.behaviour = dict(case.get('behaviour', {}))
         self.sent_events = {}
         self.resumes = {}
+        self.bound = {}       # id(event) -> [call index, protocol, event, handed to send()]   (style 'bound')
+        self.promises = {}    # call index -> what fire() returned to the sender
         conns = case.get('conns', 1)
         fw = case.get('fw', {})
         cuts = case.get('cuts', {})
@@ -534,7 +562,9 @@ class World:
         call = self.case['calls'][idx]
         tree = self.endpoint(call['from'])[0]
         style = call.get('style', 'direct')
-        name = {'direct': 'vq7_call', 'call': 'vq7_callw', 'noresult': 'vq7_nores'}[style]
+        if style == 'bound' and not call['channels']:
+            style = 'direct'      # fired locally without channels the event would take the sender's own channel along
+        name = {'direct': 'vq7_call', 'call': 'vq7_callw', 'noresult': 'vq7_nores', 'bound': 'vq7_bound'}[style]
         tree.root.fire(classes()['Event'].create(name, idx), 'snd')
 
     # -- stepping -----------------------------------------------------------------------------
@@ -1330,7 +1360,7 @@ def gen_calls(rng, hot_rate=0.15):
         big = rng.choice([5000, 9000, 21000]) if i == big_at else 0
         args, kwargs = gen_payload(rng, hot, big)
         r = rng.random()
-        style = 'direct' if r < 0.6 else 'call' if r < 0.92 else 'noresult'
+        style = 'direct' if r < 0.5 else 'call' if r < 0.8 else 'bound' if r < 0.92 else 'noresult'
         calls.append({'from': frm, 'name': name, 'args': args, 'kwargs': kwargs, 'channels': chans, 'style': style,
                       'wave': 0 if together else i,
                       'flags': {'success': rng.random() < 0.3, 'failure': rng.random() < 0.3, 'notify': rng.random() < 0.2}})
@@ -1555,6 +1585,14 @@ def corpus():
     cs.append(calls_case([call('c0', 'hello', [1], channels=[])], {'hello': 'ret'}))
     cs.append(calls_case([call('s0', 'hello', [1], style='noresult'), call('s0', 'ping', [1], wave=1)], {'hello': 'ret', 'ping': 'ret'}))
     cs.append(calls_case([call('c0', 'hello', [1], success=True, failure=True, notify=True)], {'hello': 'ret'}))
+    # the event is fired locally first and one of its own handlers hands it to send() (auto-binding): the promise of that fire() gets the
+    # peer's result
+    for b in ('ret', 'echo', 'gen', 'none', 'boom'):
+        cs.append(calls_case([call('c0', 'hello', [1, 'x'], style='bound')], {'hello': b}))
+        cs.append(calls_case([call('s0', 'hello', [2], style='bound', success=True), call('c0', 'ping', [3], style='bound', notify=True)], {'hello': b, 'ping': 'ret'}))
+    cs.append(calls_case([call('c0', 'hello', [i], style='bound') for i in range(3)] + [call('c0', 'ping', [9])], {'hello': 'ret', 'ping': 'echo'}, {'c2s': [7], 's2c': [5]}))
+    cs.append(calls_case([call('c0', 'hello', [1], style='bound', channels=['app', 'aux'])], {'hello': 'ret'}))
+    cs.append(calls_case([call('c0', 'hello', [1], style='bound'), call('c1', 'ping', [2], style='bound')], {'hello': 'ret', 'ping': 'gen'}, conns=2, topology='hub'))
     # remote handler raises (plain and generator)
     cs.append(calls_case([call('c0', 'hello', [1])], {'hello': 'boom'}))
     cs.append(calls_case([call('c0', 'hello', [1], style='call', failure=True)], {'hello': 'genboom'}))
